@@ -29,6 +29,7 @@ type Tuple struct {
 	Exact    bool         `json:"x,omitempty"`
 	ErrAny   bool         `json:"ea,omitempty"` // C15: any error matches any error
 	PanicAny bool         `json:"pa,omitempty"` // C15: a panic matches any failure
+	Always   bool         `json:"al,omitempty"` // recorded for the oracle process whatever the sampling rate
 }
 
 type Stats struct {
@@ -960,10 +961,21 @@ func RunC15(w *Workload, st *Stats, maxYields uint64) *RunReport {
 	if nontriv {
 		st.NontrivTexts[hstr(0, text)] = struct{}{}
 	}
+	if strings.Contains(w.Note, "twins") && len(w.Exprs) > 1 {
+		// the twin text, evaluated after the first one in this process
+		simrt.SetPolicy(w.Policies[0])
+		o2 := callSearch(w.Exprs[1].Text, MustDec(docEnc))
+		rep.Tuples = append(rep.Tuples, Tuple{Text: w.Exprs[1].Text, Doc: docEnc, Pol: w.Policies[0], OneShot: true, Key: o2.Key(), Always: true})
+	}
 	if cmp.mode.K != 'U' {
 		rep.Tuples = append(rep.Tuples, Tuple{Text: text, Doc: docEnc, Pol: simrt.Policy{Kind: simrt.PolNative}, OneShot: true, Key: cmp.key(evs[0].out), Mode: cmp.mode, Exact: cmp.exact, ErrAny: cmp.errAny, PanicAny: cmp.panicAny})
 	} else {
 		rep.Tuples = append(rep.Tuples, Tuple{Text: text, Doc: docEnc, Pol: w.Policies[0], OneShot: true, Key: evs[0].out.Key()})
+	}
+	if strings.Contains(w.Note, "twins") {
+		for i := range rep.Tuples {
+			rep.Tuples[i].Always = true
+		}
 	}
 	rep.Digest = dg
 	return rep
